@@ -261,6 +261,7 @@ def jobs(tier, seed):
                           label='%s[%d:%d] %s' % (family, lo, min(n, lo + chunk), spelling)))
     fam('d2', 4)
     J.append(dict(harness='h_while', params={}, label='whiledo'))
+    J.append(dict(harness='h_length', params={}, label='lengthtest', split=3))
     if tier == 'quick':
         fam('d2', 4, 'upper', stride=3)
     else:
@@ -268,5 +269,4 @@ def jobs(tier, seed):
         fam('d3', 12)
         fam('chains4', 8)
         J.append(dict(harness='h_while', params=dict(nested=True), label='whiledo nested'))
-        J.append(dict(harness='h_length', params={}, label='lengthtest'))
     return J
